@@ -644,6 +644,11 @@ def c11_corpus(tier, seed):
     add('enum', tparams(['T', 'U', 'V']), [('A', 'tuple', [Field(T)], False), ('B', 'named', [Field(U), Field(V, Default='expr')], True), ('C', 'unit', [], False)], [('Default', None)])
     add('enum', tparams(['T', 'U']), [('A', 'unit', [], True), ('B', 'tuple', [Field(T), Field(U)], False)], [('Default', None)])
     add('enum', tparams(['T']), [('A', 'tuple', [Field(ARR(T))], False)], [('Default', None)])
+    # an expression on a generic field in every handler arm (named / tuple struct, named / tuple default variant, marked or only variant)
+    add('struct', tparams(['T', 'U']), [('S', 'tuple', [Field(T, Default='expr'), Field(OPT(U))], False)], [('Default', None)])
+    add('enum', tparams(['T', 'U', 'V']), [('A', 'unit', [], False), ('B', 'tuple', [Field(T, Default='expr'), Field(U), Field(PH(V), Default='expr')], True)], [('Default', None)])
+    add('enum', tparams(['T', 'U']), [('A', 'tuple', [Field(BOX(T)), Field(U, Default='expr')], False)], [('Default', None)])
+    add('enum', tparams(['T', 'U']), [('A', 'named', [Field(T, Default='expr'), Field(PAIR(U, U8))], False)], [('Default', None)])
     add('union', tparams(['T', 'U'], cp), [('S', 'named', [Field(T, Default='marker'), Field(U)], False)], [('Default', None)], hand=[])
     add('union', tparams(['T', 'U'], cp), [('S', 'named', [Field(T), Field(U, Default='expr')], False)], [('Default', None)], hand=[])
     # Into(u8): only the chosen field, only if it needs conversion
@@ -755,7 +760,7 @@ def c12_corpus(tier, seed):
     # per-target bounds on Into
     for m in [None, '*', ('list', 'T: ::core::convert::Into<u8>'), ('str', 'T: ::core::convert::Into<u8>, U: ::core::clone::Clone')]:
         add('struct', [('type', 'T', None, None), ('type', 'U', None, None)], [('S', 'named', [Field(T, Into='into'), Field(U)], False)], [('Into', m)])
-    for m in [False, ('empty', ''), ('liststr', 'U: ::core::clone::Clone')]:
+    for m in [False, ('empty', ''), ('liststr', 'U: ::core::clone::Clone'), '*']:
         add('struct', [('type', 'T', None, None), ('type', 'U', None, None)], [('S', 'named', [Field(T, Into='intom'), Field(U)], False)], [('Into', m)])
     # per-target bounds with two targets: the predicates given for one target must not reach the other impl
     TU = [('type', 'T', None, None), ('type', 'U', None, None)]
